@@ -3,6 +3,7 @@
 package bigbuff
 
 import (
+	"context"
 	"fmt"
 	"math/rand"
 	"reflect"
@@ -213,8 +214,18 @@ type exEnv struct {
 
 var exKeyPool = []interface{}{nil, "k1", 2}
 
+// exKeyObj: keys may be pointers (identity, not contents, is the key: two distinct pointers with equal pointees are two keys,
+// and a pointer stays the same key while its pointee changes - the harness changes it before every call) or other
+// comparable non-scalar values
+type exKeyObj struct{ v int }
+
 func newExEnv(h *hctx, id string, nkeys int) *exEnv {
-	return &exEnv{h: h, e: new(Exclusive), keys: exKeyPool[:nkeys], started: make(chan *exFn, 4096), id: id,
+	keys := exKeyPool[:nkeys]
+	if h.rng.Intn(3) == 0 {
+		keys = []interface{}{&exKeyObj{}, &exKeyObj{}, [2]int{1, 2}}[:nkeys]
+		h.count("env_with_pointer_keys", 1)
+	}
+	return &exEnv{h: h, e: new(Exclusive), keys: keys, started: make(chan *exFn, 4096), id: id,
 		gapSeen: map[[2]int]bool{}, gapFns: map[int]bool{}}
 }
 
@@ -237,6 +248,9 @@ func (env *exEnv) issue(style, key, mode int, fail, gated bool, wait, inner time
 	c := &exCallRec{id: len(env.calls), key: key, style: style, fn: f, wait: wait, done: make(chan struct{}), res: -1}
 	env.fns = append(env.fns, f)
 	env.calls = append(env.calls, c)
+	if ko, ok := env.keys[key].(*exKeyObj); ok {
+		ko.v++ // the pointee changes between calls; the key does not
+	}
 	c.inv = tick()
 	env.mu.Unlock()
 	env.h.count("style_"+exStyleName[style], 1)
@@ -1217,5 +1231,87 @@ func init() {
 		h.count("forced_resolve_won", forcedWon)
 		// (the two callers of a batch may have been served by two executions - the second registering after the first
 		// started - in which case each execution has its own race and only the per-caller checks apply)
+	})
+}
+
+// ---------------------------------------------------------------------------------------------------------------
+// C09RATE: ExclusiveRateLimit's context is cancelled while the rate-limited work function is still executing.  The
+// context only cuts the pacing wait short: the key stays held until the work function has RETURNED, so a later call under
+// the same key (not guarded by that context) must not start before.
+// ---------------------------------------------------------------------------------------------------------------
+func init() {
+	register("C09RATE", func(h *hctx) {
+		for i := 0; i < h.n; i++ {
+			var e Exclusive
+			key := i
+			rctx, cancel := context.WithCancel(context.Background())
+			started, release := make(chan struct{}), make(chan struct{})
+			var aRunning atomic.Bool
+			aDone := make(chan *ExclusiveOutcome, 1)
+			go func() {
+				aDone <- <-e.CallWithOptions(ExclusiveKey(key), ExclusiveWork(func(resolve func(interface{}, error)) {
+					aRunning.Store(true)
+					close(started)
+					<-release
+					if h.rng != nil && i%2 == 0 {
+						resolve(1, nil) // resolved, but not yet returned
+						time.Sleep(100 * time.Microsecond)
+					}
+					aRunning.Store(false)
+				}), ExclusiveRateLimit(rctx, time.Duration(50+i%300)*time.Microsecond))
+			}()
+			select {
+			case <-started:
+			case <-time.After(3 * time.Second):
+				h.line("MONITOR C09 rate-limited work function did not start within 3 s (case %d)", i)
+				cancel()
+				return
+			}
+			cancel() // mid-flight
+			time.Sleep(time.Duration(i%5) * 50 * time.Microsecond)
+			overlapped := make(chan bool, 1)
+			bDone := make(chan struct{})
+			go func() {
+				defer close(bDone)
+				_, _ = e.Call(key, func() (interface{}, error) {
+					overlapped <- aRunning.Load()
+					return 2, nil
+				})
+			}()
+			select {
+			case ov := <-overlapped:
+				if ov {
+					h.line("MONITOR C09 overlap: a call started under key %d while the rate-limited work function of the previous call was still executing (its rate-limit context had been cancelled mid-flight; case %d)", key, i)
+				} else {
+					h.line("MONITOR C09 harness: second call ran although the first function was never released (case %d)", i)
+				}
+			case <-time.After(time.Duration(200+i%3*100) * time.Microsecond):
+				// correct: B is waiting for A's function to return
+			}
+			close(release)
+			for _, ch := range []interface{}{aDone, bDone} {
+				switch c := ch.(type) {
+				case chan *ExclusiveOutcome:
+					select {
+					case <-c:
+					case <-time.After(3 * time.Second):
+						h.line("MONITOR C09 rate-limited call did not return within 3 s of its function returning (case %d)", i)
+						return
+					}
+				case chan struct{}:
+					select {
+					case <-c:
+					case <-time.After(3 * time.Second):
+						h.line("MONITOR C09 call queued behind a rate-limited call did not return within 3 s (case %d)", i)
+						return
+					}
+				}
+			}
+			select {
+			case <-overlapped: // B ran after the release: fine
+			default:
+			}
+			h.count("c09rate_cases", 1)
+		}
 	})
 }
